@@ -141,6 +141,10 @@ func init() {
 			return nil
 		},
 		symPkg + "Overflows": func(fr *frame, args []value) value { return cur.Overflows },
+		symPkg + "YieldOnWaitGroup": func(fr *frame, args []value) value {
+			cur.YieldOnWG = args[0].(bool)
+			return nil
+		},
 		symPkg + "RandExtremes": func(fr *frame, args []value) value {
 			cur.RandExtremes = args[0].(bool)
 			return nil
@@ -177,7 +181,14 @@ func init() {
 		"(*sync.RWMutex).RUnlock":  noop,
 		"(*sync.WaitGroup).Add":    noop,
 		"(*sync.WaitGroup).Done":   noop,
-		"(*sync.WaitGroup).Wait":   noop,
+		// Wait: a no-op unless the harness opted in (sym.YieldOnWaitGroup): then the environment registered
+		// with sym.OnYield acts once (tag "wg"): it is expected to run the goroutines being waited for
+		"(*sync.WaitGroup).Wait": func(fr *frame, args []value) value {
+			if cur.YieldOnWG && cur.yieldFn != nil {
+				call(fr.i, fr, 0, cur.yieldFn, []value{"wg"})
+			}
+			return nil
+		},
 		"sync.runtime_registerPoolCleanup": noop,
 		"runtime.SetFinalizer":     noop,
 		"runtime.KeepAlive":        noop,
